@@ -398,74 +398,52 @@ def correspondence(ctx, built):
 
 
 # ====================================================================== search on the implementation
-SUB = [5e-324, 1e-300, 1e-170, 1e-160]          # offsets whose square underflows to 0
-
-
-def offsets(base, scale):
-    """(tag, value) variants of a special coordinate `base` of a geometry of size `scale`"""
+# Every special coordinate ("base") of a geometry is visited exactly and at fixed offsets of five KINDS:
+#   exact | ulp (1..4 ulp) | sub (offset whose square underflows) | tiny (<= 1e-30 sizes) | near (1e-15 .. 1e-9 sizes)
+# The enumeration is deterministic (full product over the axes); the seed only selects the extra length scale.
+def offsets(base, scale, rich):
     out = [("exact", base)]
-    for k in (1, 2, 4):
+    for k in ((1, -1, 4, -4, 2, -2) if rich else (1, -1, 4, -4)):
         out.append(("ulp", ulp_step(base, k)))
-        out.append(("ulp", ulp_step(base, -k)))
-    for s in SUB:
-        for sg in (1, -1):
-            v = base + sg * s
-            if v != base:
-                out.append(("sub", v))
-    for rel in (1e-100, 1e-30, 1e-15, 3e-15, 1e-12, 1e-9):
-        for sg in (1, -1):
-            v = base + sg * rel * scale
-            if v != base:
-                out.append(("tiny" if rel <= 1e-30 else "near", v))
+    subs = (5e-324, -1e-170, -5e-324, 1e-170, 1e-300, -1e-160) if rich else (5e-324, -1e-170)
+    for sv in subs:
+        if base + sv != base:
+            out.append(("sub", base + sv))
+    tinys = (1e-100, -1e-100, 1e-30, -1e-30) if rich else (1e-100, -1e-30)
+    for rel in tinys:
+        if base + rel * scale != base:
+            out.append(("tiny", base + rel * scale))
+    nears = (3e-15, -1e-12, 1e-9, -3e-15, 1e-12, -1e-9, 1e-15, -1e-15) if rich else (3e-15, -1e-12, 1e-9)
+    for rel in nears:
+        if base + rel * scale != base:
+            out.append(("near", base + rel * scale))
     return out
 
 
-def far(scale):
-    return [("far", m * scale) for m in (1e3, -1e6, 1e12)]
-
-
-def coord_set(bases, scale, rng, extra=()):
-    """all variants of all special coordinates + a generic value + far values"""
-    out = []
+def coord_set(bases, scale, rich, nonneg=False):
+    out, seen = [], set()
     for name, b in bases:
-        for tag, v in offsets(b, scale):
-            out.append((f"{name}:{tag}", v))
+        for kind, v in offsets(b, scale, rich):
+            if (nonneg and v < 0) or v in seen:
+                continue
+            seen.add(v)
+            out.append((f"{name}:{kind}", v))
     out.append(("generic", 0.37 * scale))
-    out.append(("generic", -1.21 * scale))
-    out += far(scale)
-    out += list(extra)
+    if not nonneg:
+        out.append(("generic", -1.21 * scale))
+    else:
+        out.append(("generic", 1.21 * scale))
+    for m in (1e3, -1e6, 1e12):
+        if not (nonneg and m < 0):
+            out.append(("far", m * scale))
     return out
 
 
-def product_points(ctx, axes, n_random, always=("exact", "ulp", "sub")):
-    """points = tuples of per-axis (tag, value); the full product of the `exact` variants with one
-    perturbed axis, plus random picks"""
-    pts = {}
-    exact = [[c for c in ax if c[0].endswith(":exact") or c[0] in ("generic",)] for ax in axes]
-
-    def add(combo):
-        tags = tuple(t for t, _ in combo)
-        vals = tuple(v for _, v in combo)
-        pts.setdefault((tags, vals), None)
-
-    def rec(i, cur):
-        if i == len(axes):
-            add(cur)
-            return
-        for c in exact[i]:
-            rec(i + 1, cur + [c])
-    rec(0, [])
-    base_combos = list(pts)
-    for tags, vals in base_combos:
-        for i, ax in enumerate(axes):
-            for c in ax:
-                if c[0].split(":")[-1] in always or c[0] == "far":
-                    combo = [(t, v) for t, v in zip(tags, vals)]
-                    combo[i] = c
-                    add(combo)
-    for _ in range(n_random):
-        add([ctx.rng.choice(ax) for ax in axes])
-    return list(pts)
+def product_points(axes):
+    pts = [((), ())]
+    for ax in axes:
+        pts = [(t + (tag,), v + (val,)) for t, v in pts for tag, val in ax]
+    return pts
 
 
 def cyl_to_cart(r, phi, z):
@@ -475,154 +453,159 @@ def cyl_to_cart(r, phi, z):
         return (0.0, r, z)
     if phi == "-x":
         return (-r, 0.0, z)
+    if phi == "-y":
+        return (0.0, -r, z)
     return (r * math.cos(phi), r * math.sin(phi), z)
 
 
 def near_vertex(verts, sc):
-    """documented singular points of Triangle-based sources: the vertices; observers within 1e-9 sizes of
+    """documented singular points of Triangle-based sources: the vertices; observers within 2e-9 sizes of
     a vertex are counted to the singular point (the exact field diverges there)"""
     va = np.array(verts, dtype=float)
     return lambda p: bool(np.any(np.max(np.abs(va - np.array(p, dtype=float)), axis=1) <= 2e-9 * sc))
 
 
 def geometries(ctx):
-    """yields (class name, variant label, source factory, points [(tags, xyz)], singular predicate)"""
-    rng = ctx.rng
-    nr = ctx.n(150, 3000)
-    scales = [1.0] + ([1e-3, 1e3] if ctx.tier == "thorough" else [rng.choice([1e-3, 1e3])])
+    """yields (class name, variant label, source factory, points [(tags, xyz)], singular predicate, shrinkable)"""
+    rich = ctx.tier == "thorough"
+    scales = [1.0] + ([1e-3, 1e3] if rich else [ctx.rng.choice([1e-3, 1e3])])
 
     for sc in scales:
+        first = sc == 1.0
         # ---- Cuboid
         a, b, c = 0.5 * sc, 1.0 * sc, 1.5 * sc
-        axes = [coord_set([("0", 0.0), ("+face", h), ("-face", -h)], sc, rng) for h in (a, b, c)]
-        pts = product_points(ctx, axes, nr)
+        axes = [coord_set([("0", 0.0), ("+face", h), ("-face", -h)], sc, rich and first) for h in (a, b, c)]
+        pts = product_points(axes)
         for pol in ((0, 0, 1), (1, 1, 1), (0, 0, 0)):
             yield ("Cuboid", f"pol={pol},scale={sc:g}",
-                   lambda pol=pol: magpy.magnet.Cuboid(dimension=(2 * a, 2 * b, 2 * c), polarization=pol), pts, None)
-        # ---- Cylinder (r, z) x phi
+                   lambda pol=pol: magpy.magnet.Cuboid(dimension=(2 * a, 2 * b, 2 * c), polarization=pol), pts, None, True)
+        # ---- Cylinder: (r, z) x azimuth; r == r0 exactly is reached at phi = 0, y, -x, -y
         r0, z0 = 1.0 * sc, 0.75 * sc
-        raxis = coord_set([("axis", 0.0), ("hull", r0), ("r=0.05r0", 0.05 * r0)], sc, rng)
-        raxis = [c for c in raxis if c[1] >= 0]
-        zaxis = coord_set([("0", 0.0), ("+base", z0), ("-base", -z0)], sc, rng)
-        cyl = product_points(ctx, [raxis, zaxis], nr)
+        raxis = coord_set([("axis", 0.0), ("hull", r0), ("r=0.05r0", 0.05 * r0)], sc, rich, nonneg=True)
+        zaxis = coord_set([("0", 0.0), ("+base", z0), ("-base", -z0)], sc, rich)
+        zaxis += [("inside", 0.3 * z0), ("inside", -0.9 * z0), ("above", 2.0 * z0), ("above", -3.0 * z0)]
         cpts = []
-        for (tr, tz), (r, z) in cyl:
-            for ph in (0.0, "y", 0.7):
+        for (tr, tz), (r, z) in product_points([raxis, zaxis]):
+            for ph in (0.0, "y", "-x", "-y", 0.7):
                 cpts.append(((tr, tz, f"phi={ph}"), cyl_to_cart(r, ph, z)))
         for pol in ((0, 0, 1), (1, 0, 0), (0.3, -0.4, 0.5), (0, 0, 0)):
             yield ("Cylinder", f"pol={pol},scale={sc:g}",
-                   lambda pol=pol: magpy.magnet.Cylinder(dimension=(2 * r0, 2 * z0), polarization=pol), cpts, None)
+                   lambda pol=pol: magpy.magnet.Cylinder(dimension=(2 * r0, 2 * z0), polarization=pol), cpts, None, True)
         # ---- Circle
-        raxis = coord_set([("axis", 0.0), ("wire", r0)], sc, rng)
-        raxis = [c for c in raxis if c[1] >= 0]
-        zaxis = coord_set([("plane", 0.0)], sc, rng)
-        cir = product_points(ctx, [raxis, zaxis], nr)
+        raxis = coord_set([("axis", 0.0), ("wire", r0)], sc, rich, nonneg=True)
+        zaxis = coord_set([("plane", 0.0)], sc, rich)
         cpts = []
-        for (tr, tz), (r, z) in cir:
+        for (tr, tz), (r, z) in product_points([raxis, zaxis]):
             for ph in (0.0, "y", "-x", 2.1):
                 cpts.append(((tr, tz, f"phi={ph}"), cyl_to_cart(r, ph, z)))
         for cur in (1.0, 0.0):
             yield ("Circle", f"current={cur},scale={sc:g}",
-                   lambda cur=cur: magpy.current.Circle(diameter=2 * r0, current=cur), cpts, None)
+                   lambda cur=cur: magpy.current.Circle(diameter=2 * r0, current=cur), cpts, None, True)
         # ---- Sphere
-        axes = [coord_set([("0", 0.0), ("surface", r0), ("-surface", -r0)], sc, rng) for _ in range(3)]
-        pts = product_points(ctx, axes, nr)
+        axes = [coord_set([("0", 0.0), ("surface", r0), ("-surface", -r0)], sc, False) for _ in range(3)]
+        pts = product_points(axes)
         sq = r0 / math.sqrt(3.0)
         pts += [(("diag-surface",) * 3, (sq, sq, sq)), (("diag-surface",) * 3, (ulp_step(sq, 1), sq, -sq))]
         for pol in ((0, 0, 1), (0, 0, 0)):
             yield ("Sphere", f"pol={pol},scale={sc:g}",
-                   lambda pol=pol: magpy.magnet.Sphere(diameter=2 * r0, polarization=pol), pts, None)
+                   lambda pol=pol: magpy.magnet.Sphere(diameter=2 * r0, polarization=pol), pts, None, True)
         # ---- Dipole (singular point: its location)
-        axes = [coord_set([("0", 0.0)], sc, rng) for _ in range(3)]
-        pts = product_points(ctx, axes, nr)
+        axes = [coord_set([("0", 0.0)], sc, rich) for _ in range(3)]
+        pts = product_points(axes)
         for mom in ((0, 0, 1), (1, -2, 3), (0, 0, 0)):
             yield ("Dipole", f"moment={mom},scale={sc:g}",
                    lambda mom=mom: magpy.misc.Dipole(moment=mom), pts,
-                   lambda p: p[0] == 0 and p[1] == 0 and p[2] == 0)
-        # ---- CylinderSegment: apex on the axis (r1 = 0) and a ring section
-        for (r1, r2, h, p1, p2) in ((0.0, 1.0 * sc, 1.0 * sc, 0.0, 90.0), (0.5 * sc, 1.0 * sc, 1.0 * sc, -30.0, 120.0),
-                                    (0.0, 1.0 * sc, 1.0 * sc, 0.0, 360.0), (0.5 * sc, 1.0 * sc, 1.0 * sc, 0.0, 360.0)):
-            raxis = coord_set([("axis", 0.0), ("r1", r1), ("r2", r2)], sc, rng)
-            raxis = [c for c in raxis if c[1] >= 0]
-            zaxis = coord_set([("0", 0.0), ("+base", h / 2), ("-base", -h / 2)], sc, rng)
-            seg = product_points(ctx, [raxis, zaxis], nr // 2)
-            phis = [("phi1", math.radians(p1)), ("phi2", math.radians(p2)), ("mid", math.radians((p1 + p2) / 2)),
-                    ("opp", math.radians((p1 + p2) / 2 + 180)), ("phi1+ulp", ulp_step(math.radians(p1), 2)),
-                    ("phi2-1e-12", math.radians(p2) - 1e-12)]
-            spts = []
-            for (tr, tz), (r, z) in seg:
-                for tp, ph in phis:
-                    spts.append(((tr, tz, tp), cyl_to_cart(r, 0.0 if ph == 0 else ph, z)))
-            for pol in ((0, 0, 1), (1, 0.5, 0)):
-                yield ("CylinderSegment", f"dim={(r1, r2, h, p1, p2)},pol={pol}",
-                       lambda pol=pol, d=(r1, r2, h, p1, p2): magpy.magnet.CylinderSegment(dimension=d, polarization=pol),
-                       spts, None)
+                   lambda p: p[0] == 0 and p[1] == 0 and p[2] == 0, True)
+        # ---- CylinderSegment: apex on the axis (r1 = 0), a ring section, and full 360 degree sections
+        if first or rich:
+            for (r1, r2, h, p1, p2) in ((0.0, 1.0 * sc, 1.0 * sc, 0.0, 90.0), (0.5 * sc, 1.0 * sc, 1.0 * sc, -30.0, 120.0),
+                                        (0.0, 1.0 * sc, 1.0 * sc, 0.0, 360.0), (0.5 * sc, 1.0 * sc, 1.0 * sc, 0.0, 360.0)):
+                raxis = coord_set([("axis", 0.0), ("r1", r1), ("r2", r2)], sc, False, nonneg=True)
+                zaxis = coord_set([("0", 0.0), ("+base", h / 2), ("-base", -h / 2)], sc, False)
+                zaxis += [("inside", 0.15 * h), ("above", 1.0 * h)]
+                full = p2 - p1 >= 360
+                if full:
+                    phis = [("phi=0", 0.0), ("phi=y", "y"), ("phi=-x", "-x"), ("phi=gen", 0.7)]
+                else:
+                    phis = [("phi1", math.radians(p1)), ("phi2", math.radians(p2)), ("mid", math.radians((p1 + p2) / 2)),
+                            ("opp", math.radians((p1 + p2) / 2 + 180)), ("phi1:ulp", ulp_step(math.radians(p1), 2)),
+                            ("phi2:near", math.radians(p2) - 1e-12)]
+                spts = []
+                for (tr, tz), (r, z) in product_points([raxis, zaxis]):
+                    for tp, ph in phis:
+                        spts.append(((tr, tz, tp), cyl_to_cart(r, ph, z)))
+                kind = ("full" if full else "section") + ("-r1=0" if r1 == 0 else "-ring")
+                for pol in ((0, 0, 1), (1, 0.5, 0)):
+                    yield ("CylinderSegment", f"{kind},pol={pol},scale={sc:g}",
+                           lambda pol=pol, d=(r1, r2, h, p1, p2): magpy.magnet.CylinderSegment(dimension=d, polarization=pol),
+                           spts, None, True)
         # ---- Polyline: on the segments, on their extension lines, at the kink
         verts = [(0.0, 0.0, 0.0), (1.0 * sc, 0.0, 0.0), (1.0 * sc, 2.0 * sc, 0.0)]
-        xaxis = coord_set([("v0", 0.0), ("v1", 1.0 * sc), ("mid", 0.5 * sc), ("ext", 3.0 * sc), ("-ext", -2.0 * sc)], sc, rng)
-        yaxis = coord_set([("line", 0.0), ("v2", 2.0 * sc), ("ymid", 1.0 * sc)], sc, rng)
-        zaxis = coord_set([("plane", 0.0)], sc, rng)
-        pts = product_points(ctx, [xaxis, yaxis, zaxis], nr)
-        yield ("Polyline", f"L,scale={sc:g}", lambda: magpy.current.Polyline(vertices=verts, current=1.5), pts, None)
-        yield ("Polyline", f"L,current=0,scale={sc:g}", lambda: magpy.current.Polyline(vertices=verts, current=0.0), pts, None)
+        xaxis = coord_set([("v0", 0.0), ("v1", 1.0 * sc), ("mid", 0.5 * sc), ("ext", 3.0 * sc), ("-ext", -2.0 * sc)], sc, False)
+        yaxis = coord_set([("line", 0.0), ("v2", 2.0 * sc), ("ymid", 1.0 * sc)], sc, False)
+        zaxis = coord_set([("plane", 0.0)], sc, rich)
+        pts = product_points([xaxis, yaxis, zaxis])
+        yield ("Polyline", f"L,scale={sc:g}", lambda: magpy.current.Polyline(vertices=verts, current=1.5), pts, None, True)
+        yield ("Polyline", f"L,current=0,scale={sc:g}", lambda: magpy.current.Polyline(vertices=verts, current=0.0), pts, None, True)
         dv = [(0.0, 0.0, 0.0), (0.0, 0.0, 0.0), (1.0 * sc, 2.0 * sc, 3.0 * sc)]
-        dpts = [((f"ext*{m:g}",), tuple(m * x for x in dv[2])) for m in (0.5, 2.0, 100.3, -7.7, 1e6, 1e12)] + pts[:200]
+        dpts = [((f"extension-line*{m:g}",), tuple(m * x for x in dv[2])) for m in (0.5, 2.0, 100.3, -7.7, 1e6, 1e12)]
         yield ("Polyline", f"zero-length-segment,scale={sc:g}",
-               lambda: magpy.current.Polyline(vertices=dv, current=1.0), dpts, None)
+               lambda: magpy.current.Polyline(vertices=dv, current=1.0), dpts, None, False)
         # ---- Triangle / Tetrahedron / TriangularMesh: faces, edges, in-plane, edge extension lines
         tv = [(0.0, 0.0, 0.0), (1.0 * sc, 0.0, 0.0), (0.0, 1.0 * sc, 0.0)]
-        vert = set(tv)
-        xaxis = coord_set([("v0", 0.0), ("v1", 1.0 * sc), ("mid", 0.5 * sc), ("in", 0.25 * sc), ("ext", 2.0 * sc)], sc, rng)
-        zaxis = coord_set([("plane", 0.0)], sc, rng)
-        pts = product_points(ctx, [xaxis, xaxis, zaxis], nr)
+        xaxis = coord_set([("v0", 0.0), ("v1", 1.0 * sc), ("mid", 0.5 * sc), ("in", 0.25 * sc), ("ext", 2.0 * sc)], sc, False)
+        zaxis = coord_set([("plane", 0.0)], sc, rich)
+        pts = product_points([xaxis, xaxis, zaxis])
         yield ("Triangle", f"scale={sc:g}", lambda: magpy.misc.Triangle(vertices=tv, polarization=(0.2, -0.3, 1.0)), pts,
-               near_vertex(tv, sc))
+               near_vertex(tv, sc), True)
         yield ("Triangle", f"pol=0,scale={sc:g}", lambda: magpy.misc.Triangle(vertices=tv, polarization=(0, 0, 0)), pts,
-               near_vertex(tv, sc))
+               near_vertex(tv, sc), True)
         tet = tv + [(0.0, 0.0, 1.0 * sc)]
-        tvert = set(tet)
-        axes = [coord_set([("v0", 0.0), ("v1", 1.0 * sc), ("mid", 0.5 * sc), ("in", 0.2 * sc), ("ext", 2.0 * sc)], sc, rng)
-                for _ in range(3)]
-        pts3 = product_points(ctx, axes, nr)
+        axes = [coord_set([("v0", 0.0), ("v1", 1.0 * sc), ("mid", 0.5 * sc), ("in", 0.2 * sc)], sc, False) for _ in range(3)]
+        pts3 = product_points(axes)
         yield ("Tetrahedron", f"scale={sc:g}", lambda: magpy.magnet.Tetrahedron(vertices=tet, polarization=(0.1, 0.2, 1.0)),
-               pts3, near_vertex(tet, sc))
-        cube = [(x * sc, y * sc, z * sc) for x in (0.0, 1.0) for y in (0.0, 1.0) for z in (0.0, 1.0)]
-        cvert = set(cube)
-        axes = [coord_set([("v0", 0.0), ("v1", 1.0 * sc), ("mid", 0.5 * sc), ("ext", 2.0 * sc)], sc, rng) for _ in range(3)]
-        ptsm = product_points(ctx, axes, nr // 2)
-        yield ("TriangularMesh", f"cube,scale={sc:g}",
-               lambda: magpy.magnet.TriangularMesh.from_ConvexHull(points=cube, polarization=(0, 0, 1.0)),
-               ptsm, near_vertex(cube, sc))
+               pts3, near_vertex(tet, sc), True)
+        if first or rich:
+            cube = [(x * sc, y * sc, z * sc) for x in (0.0, 1.0) for y in (0.0, 1.0) for z in (0.0, 1.0)]
+            axes = [[c for c in coord_set([("v0", 0.0), ("v1", 1.0 * sc), ("mid", 0.5 * sc)], sc, False)
+                     if not c[0].endswith((":tiny",)) and c[0] != "far" or c[1] == 1e3 * sc] for _ in range(3)]
+            ptsm = product_points(axes)
+            yield ("TriangularMesh", f"cube,scale={sc:g}",
+                   lambda: magpy.magnet.TriangularMesh.from_ConvexHull(points=cube, polarization=(0, 0, 1.0)),
+                   ptsm, near_vertex(cube, sc), True)
 
-    # ---- zero-size sources
-    gen = [((f"g{i}",), p) for i, p in enumerate([(0.0, 0.0, 0.0), (1.0, 0.0, 0.0), (0.0, 0.0, 1e-170), (1.0, 2.0, 3.0),
-                                                   (5e-324, 0.0, 0.0), (1e12, 0.0, -1e12)])]
-    yield ("Circle", "diameter=0", lambda: magpy.current.Circle(diameter=0.0, current=1.0), gen, None)
-    yield ("Sphere", "diameter=0", lambda: magpy.magnet.Sphere(diameter=0.0, polarization=(0, 0, 1)), gen, None)
+    # ---- zero-size sources (documented valid): observers named by where they are
+    gen = [(("at-source",), (0.0, 0.0, 0.0)), (("unit-x",), (1.0, 0.0, 0.0)), (("z-sub",), (0.0, 0.0, 1e-170)),
+           (("generic",), (1.0, 2.0, 3.0)), (("x-sub",), (5e-324, 0.0, 0.0)), (("far",), (1e12, 0.0, -1e12))]
+    yield ("Circle", "diameter=0", lambda: magpy.current.Circle(diameter=0.0, current=1.0), gen, None, False)
+    yield ("Sphere", "diameter=0", lambda: magpy.magnet.Sphere(diameter=0.0, polarization=(0, 0, 1)), gen, None, False)
     yield ("Polyline", "all-equal-vertices",
-           lambda: magpy.current.Polyline(vertices=[(1.0, 0, 0), (1.0, 0, 0)], current=1.0), gen, None)
-    yield ("CylinderSegment", "r1=0,tiny",
-           lambda: magpy.magnet.CylinderSegment(dimension=(0, 1e-150, 1e-150, 0, 90), polarization=(0, 0, 1)), gen, None)
+           lambda: magpy.current.Polyline(vertices=[(1.0, 0, 0), (1.0, 0, 0)], current=1.0), gen, None, False)
+    # ---- sources of sub-normal-square size (valid inputs; every squared length underflows)
+    yield ("CylinderSegment", "size=1e-150,r1=0",
+           lambda: magpy.magnet.CylinderSegment(dimension=(0, 1e-150, 1e-150, 0, 90), polarization=(0, 0, 1)), gen, None, False)
     for d in (1e-150, 1e-300):
-        tiny = [((f"t{i}",), p) for i, p in enumerate([(0.0, 0.0, 0.0), (d / 2, 0.0, d / 2), (d / 2, 0.0, 1e-170), (1.0, 0.0, 0.0),
-                                                        (d / 2, d / 2, d / 2), (0.0, 0.0, d), (1.0, 2.0, 3.0)])]
-        yield ("Cuboid", f"dimension={d:g}", lambda d=d: magpy.magnet.Cuboid(dimension=(d, d, d), polarization=(0, 0, 1)), tiny, None)
-        yield ("Cylinder", f"dimension={d:g}", lambda d=d: magpy.magnet.Cylinder(dimension=(d, d), polarization=(0.5, 0, 1)), tiny, None)
-        yield ("Sphere", f"diameter={d:g}", lambda d=d: magpy.magnet.Sphere(diameter=d, polarization=(0, 0, 1)), tiny, None)
-        yield ("Circle", f"diameter={d:g}", lambda d=d: magpy.current.Circle(diameter=d, current=1.0), tiny, None)
+        tiny = [(("center",), (0.0, 0.0, 0.0)), (("rim",), (d / 2, 0.0, d / 2)), (("hull,z-sub",), (d / 2, 0.0, 1e-170)),
+                (("unit-x",), (1.0, 0.0, 0.0)), (("corner",), (d / 2, d / 2, d / 2)), (("above",), (0.0, 0.0, d)),
+                (("generic",), (1.0, 2.0, 3.0))]
+        yield ("Cuboid", f"size={d:g}", lambda d=d: magpy.magnet.Cuboid(dimension=(d, d, d), polarization=(0, 0, 1)), tiny, None, False)
+        yield ("Cylinder", f"size={d:g}", lambda d=d: magpy.magnet.Cylinder(dimension=(d, d), polarization=(0.5, 0, 1)), tiny, None, False)
+        yield ("Sphere", f"size={d:g}", lambda d=d: magpy.magnet.Sphere(diameter=d, polarization=(0, 0, 1)), tiny, None, False)
+        yield ("Circle", f"size={d:g}", lambda d=d: magpy.current.Circle(diameter=d, current=1.0), tiny, None, False)
     # flat cylinders / thin cuboids: one size far below the others
-    flat = [((f"f{i}",), p) for i, p in enumerate([(1.0, 0.0, 1e-170), (1.0, 0.0, 0.0), (1.0, 0.0, 1e-200), (0.5, 0.0, 1e-170),
-                                                    (1.0, 0.0, -1e-160), (2.0, 0.0, 1e-170), (0.0, 1.0, 1e-170)])]
+    flat = [(("hull,z-sub",), (1.0, 0.0, 1e-170)), (("hull,z=0",), (1.0, 0.0, 0.0)), (("hull,z-inside",), (1.0, 0.0, 1e-200)),
+            (("inside,z-sub",), (0.5, 0.0, 1e-170)), (("hull,-z-sub",), (1.0, 0.0, -1e-160)), (("outside,z-sub",), (2.0, 0.0, 1e-170)),
+            (("hull-y,z-sub",), (0.0, 1.0, 1e-170))]
     for h in (2e-200, 2e-170):
         for pol in ((0, 0, 1), (1, 0, 0)):
-            yield ("Cylinder", f"flat,h={h:g},pol={pol}",
-                   lambda h=h, pol=pol: magpy.magnet.Cylinder(dimension=(2.0, h), polarization=pol), flat, None)
-    yield ("Cuboid", "flat,h=2e-200", lambda: magpy.magnet.Cuboid(dimension=(2.0, 2.0, 2e-200), polarization=(0, 0, 1)), flat, None)
+            yield ("Cylinder", f"flat,h={h:g},pol={'axial' if pol[2] else 'diametral'}",
+                   lambda h=h, pol=pol: magpy.magnet.Cylinder(dimension=(2.0, h), polarization=pol), flat, None, False)
+    yield ("Cuboid", "flat,h=2e-200", lambda: magpy.magnet.Cuboid(dimension=(2.0, 2.0, 2e-200), polarization=(0, 0, 1)), flat, None, False)
 
 
 def coarse(tags):
-    """signature part of a point: per-axis special set and kind of offset; numbers and azimuth dropped"""
-    return ",".join(t for t in tags if not t.startswith("phi"))
+    """group key of a point: per-axis special set, its sign, and kind of offset; azimuth of round classes dropped"""
+    return ",".join(t for t in tags if not t.startswith("phi="))
 
 
 def evaluate(src, field, pts, seconds):
@@ -632,41 +615,42 @@ def evaluate(src, field, pts, seconds):
         return guarded(lambda: fn(obs), seconds)
 
 
-def check_one(ctx, cls, label, mk, field, tags, p, singular, confirm=8.0):
-    """single observer, confirmed; returns (clause, what) or None"""
+def check_one(mk, field, p, singular, n=1, confirm=8.0):
+    """one observer (n = 1) or the same observer n times in one call; returns (clause, what) or None"""
     src = mk()
+    obs = np.array(p, dtype=float) if n == 1 else np.tile(np.array(p, dtype=float), (n, 1))
     with np.errstate(all="ignore"):
         fn = src.getB if field == "B" else src.getH
-        st, v = guarded_confirm(lambda: fn(np.array(p, dtype=float)), 2.0, confirm)
+        st, v = guarded_confirm(lambda: fn(obs), 2.0, confirm)
     if st == "hang":
         return "terminates", f"does not return (watchdog 2 s, then {confirm:g} s)"
     if st == "raise":
-        return "returns", f"raises {type(v).__name__}: {str(v)[:80]}"
+        return f"returns[{type(v).__name__}]", f"raises {type(v).__name__}: {str(v)[:80]}"
     v = np.asarray(v)
-    if v.shape != (3,):
-        return "shape", f"shape {v.shape} instead of (3,)"
+    if v.shape != obs.shape:
+        return "shape", f"shape {v.shape} instead of {obs.shape}"
     if not np.all(np.isfinite(v)):
         if singular is not None and singular(p):
             return None
-        return "finite", f"non-finite result {v.tolist()}"
+        return "finite", f"non-finite result {v.reshape(-1, 3)[0].tolist()}"
     return None
 
 
 def norm_tag(t):
-    """'+face:near' -> 'face:off', 'wire:exact' -> 'wire:exact'; generic / far / phi tags -> None"""
-    if ":" not in t:
-        return None if (t in ("generic", "far") or t.startswith("phi")) else t
-    name, kind = t.rsplit(":", 1)
-    return name.lstrip("+-") + (":exact" if kind == "exact" else ":off")
+    """'+face:near' -> 'face:near' (sign dropped, kind kept); generic / far / azimuth-of-round-class tags -> None"""
+    if t in ("generic", "far") or t.startswith("phi="):
+        return None
+    return t.lstrip("+-")
 
 
-def shrink_point(ctx, cls, label, mk, field, tags, p, singular, clause):
+def shrink_point(mk, field, tags, p, singular, clause, n):
     """replace every Cartesian coordinate that is not needed for the failure by a generic value;
     returns (essential tags, shrunk point).  Tags are per generation axis: Cartesian (x, y, z) or
-    cylindrical (r, z, phi) -- for the latter x and y both belong to the r tag."""
+    cylindrical (r, z, azimuth) -- for the latter x and y both belong to the r tag."""
     p = list(p)
-    scale = max(max(abs(x) for x in p), 1e-3) if max(abs(x) for x in p) < 1e6 else 1.0
-    cart = len(tags) == 3 and not any(t.startswith("phi") or t in ("mid", "opp") for t in tags[2:])
+    m = max(abs(x) for x in p)
+    scale = 1.0 if (m == 0 or m > 1e6) else max(m, 1e-3)
+    cyl = len(tags) == 3 and (tags[2].startswith("phi") or tags[2] in ("mid", "opp"))
     essential = [False, False, False]
     for i in range(3):
         for g in (0.37 * scale, -1.21 * scale):
@@ -674,40 +658,56 @@ def shrink_point(ctx, cls, label, mk, field, tags, p, singular, clause):
             q[i] = g
             if singular is not None and singular(q):
                 continue
-            r = check_one(ctx, cls, label, mk, field, tags, q, singular, confirm=4.0)
+            r = check_one(mk, field, q, singular, n, confirm=4.0)
             if r is not None and r[0] == clause:
                 p = q
                 break
         else:
             essential[i] = True
-    if len(tags) < 2:
-        return [norm_tag(t) for t in tags if norm_tag(t)], p
-    if cart:
-        ess = [tags[i] for i in range(3) if essential[i]]
-    else:
+    if cyl:
         ess = ([tags[0]] if (essential[0] or essential[1]) else []) + ([tags[1]] if essential[2] else [])
-    return sorted({norm_tag(t) for t in ess if norm_tag(t)}), p
+        if not tags[2].startswith("phi=") and (essential[0] or essential[1]):
+            ess.append(tags[2])                      # azimuthal faces of a CylinderSegment section
+    else:
+        ess = [tags[i] for i in range(min(3, len(tags))) if essential[i]]
+    return sorted(t for t in (norm_tag(t) for t in ess) if t), p
 
 
-def region(cls, label, ess):
-    """coarse, seed-independent name of the special set a shrunk counterexample lies on"""
-    if label.startswith(("dimension=", "diameter=", "flat", "r1=0,tiny")):
-        return "source-size-below-1e-150"
-    names = sorted({t.split(":")[0] for t in ess})
-    if cls == "CylinderSegment":
-        return "surface-or-axis" if names else "generic-point"
-    return "+".join(names) if names else "generic-point"
+def signature(clause, cls, label, ess, shrinkable, n, tags):
+    """<clause>/<Class>:<special sets with kind of offset, with multiplicity>[:batchN]
+    e.g. finite/Cuboid:face:exact+face:exact+face:exact (a corner), finite/Cuboid:face:exact+face:near"""
+    if not shrinkable:
+        reg = "[" + label + "]" + "+".join(tags)
+    else:
+        variant = label.split(",")[0] if cls == "CylinderSegment" else ""
+        reg = (variant + ":" if variant else "") + ("+".join(ess) if ess else "generic-point")
+    return f"{clause}/{cls}:{reg}" + (f":batch{n}" if n > 1 else "")
 
 
-SCALAR_PATH = {"Circle": 400, "Cylinder": 400, "CylinderSegment": 150}     # classes with batch-size dependent loops
+SINGLES = {"Circle": 400, "Cylinder": 400, "CylinderSegment": 80}     # classes with batch-size dependent loops
+NB = 16                                                                # cel switches at 10 rows, cel_iter at 15
 
 
 def search(ctx, big):
     found = 0
     tstart = time.time()
-    budget = ctx.n(100, 600) * (3 if big else 1)
+    budget = ctx.n(110, 900) * (3 if big else 1)
     failed = set()               # (class, coarse tags) already reported: not evaluated again
-    for cls, label, mk, pts, singular in geometries(ctx):
+
+    def report(cls, label, mk, field, tags, p, singular, shrinkable, clause, what, n):
+        ess = []
+        if shrinkable:
+            ess, q = shrink_point(mk, field, tags, p, singular, clause, n)
+            r2 = check_one(mk, field, q, singular, n, confirm=4.0)
+            if r2 is not None and r2[0] == clause:
+                p, what = q, r2[1]
+        sig = signature(clause, cls, label, ess, shrinkable, n, tags)
+        many = f" (the same observer {n} times in one call; alone it is fine)" if n > 1 else ""
+        ctx.impl_fail(sig, f"{cls}({label}).get{field}({tuple(float(x) for x in p)!r}) {what}{many}",
+                      {"kind": "point", "class": cls, "label": label, "field": field, "n": n,
+                       "point": [float.hex(float(x)) for x in p], "tags": list(tags)})
+
+    for cls, label, mk, pts, singular, shrinkable in geometries(ctx):
         if time.time() - tstart > budget:
             ctx.notes.append(f"search stopped at {cls} {label}: time budget {budget}s used")
             ctx.bump("search:stopped-by-budget")
@@ -719,17 +719,16 @@ def search(ctx, big):
             pts = [(t, p) for t, p in pts if max(abs(x) for x in p) >= 1e-60]
         for field in ("B", "H"):
             pts = [(t, p) for t, p in pts if (cls, coarse(t)) not in failed]
+            if not pts:
+                continue
             groups = {}
             for tags, p in pts:
                 groups.setdefault(coarse(tags), []).append((tags, p))
-            try:
-                src = mk()
-            except Exception as e:   # pylint: disable=broad-except
-                ctx.add_broken("broken-correspondence", f"search: cannot build {cls} {label}", repr(e))
-                break
-            # 1. the whole point set in one call (vectorised paths)
+            # 1. the whole battery in ONE call (>= 16 rows: vectorised celv / cel_iterv paths)
             allp = [p for _, p in pts]
-            st, v = evaluate(src, field, allp, 6.0 + len(allp) / 2000.0)
+            if len(allp) < NB:
+                allp = (allp * (NB // len(allp) + 1))
+            st, v = evaluate(mk(), field, allp, 6.0 + len(allp) / 2000.0)
             ctx.count("search_points", len(allp))
             ctx.bump(f"search:{cls}:{field}", len(allp))
             suspects = []
@@ -742,62 +741,61 @@ def search(ctx, big):
                     badrows = np.where(~np.all(np.isfinite(v), axis=1))[0]
                     seen_g = set()
                     for i in badrows:
-                        g = coarse(pts[i][0])
-                        if g not in seen_g:
-                            seen_g.add(g)
-                            suspects.append(pts[i])
+                        tg, pp = pts[i % len(pts)]
+                        key = tuple(sorted(t for t in (norm_tag(t) for t in tg) if t))
+                        if key not in seen_g:
+                            seen_g.add(key)
+                            suspects.append((tg, pp))
             else:
-                # something in the batch hangs / raises: group by group, tiled to >= 16 rows
+                # something in the battery hangs / raises: special set by special set, >= 16 rows each
                 for g, gp in groups.items():
-                    tile = ([p for _, p in gp] * (16 // len(gp) + 1))[:max(16, len(gp))]
+                    tile = ([p for _, p in gp] * (NB // len(gp) + 1))[:max(NB, len(gp))]
                     s2, _ = evaluate(mk(), field, tile, 2.0)
                     if s2 != "ok":
-                        # the first member that fails alone is the witness; else report the batch
-                        wit = None
-                        for tags, p in gp[:8]:
-                            if check_one(ctx, cls, label, mk, field, tags, p, singular, confirm=4.0) is not None:
-                                wit = (tags, p)
-                                break
-                        if wit is not None:
-                            suspects.append(wit)
-                        else:
-                            s3, v3 = guarded_confirm(lambda t=tile: (mk().getB if field == "B" else mk().getH)(np.array(t)), 2.0, 8.0)
-                            if s3 != "ok":
-                                failed.add((cls, g))
-                                found += 1
-                                clause = "terminates" if s3 == "hang" else "returns"
-                                ess_b = sorted({norm_tag(t) for t in g.split(",") if norm_tag(t)})
-                                ctx.impl_fail(f"{clause}/{cls}:{region(cls, label, ess_b)}:batch",
-                                              f"{cls}({label}).get{field} on {len(tile)} observers of this special set "
-                                              f"{'does not return' if s3 == 'hang' else 'raises ' + repr(v3)[:80]} "
-                                              f"(each observer alone is fine)",
-                                              {"kind": "batch", "class": cls, "label": label, "field": field,
-                                               "points": [[float.hex(float(x)) for x in p] for p in tile]})
-            # 2. the scalar paths: one observer per call for group representatives
-            reps = [gp[0] for gp in groups.values()] + [gp[-1] for gp in groups.values() if len(gp) > 1]
-            cap = SCALAR_PATH.get(cls, 60) * (1 if ctx.tier == "quick" else 12) * (3 if big else 1)
-            if len(reps) > cap:
-                reps = ctx.rng.sample(reps, cap)
-            seen = set()
-            for tags, p in suspects + reps:
-                key = tuple(p)
-                if key in seen or (cls, coarse(tags)) in failed:
+                        suspects.append(gp[0])
+            # 2. every suspect alone, then NB times in one call
+            for tags, p in suspects:
+                if (cls, coarse(tags)) in failed:
                     continue
-                seen.add(key)
                 ctx.case(("search", cls, label, field, tuple(p)), True)
-                r = check_one(ctx, cls, label, mk, field, tags, p, singular)
-                if r is not None:
-                    clause, what = r
-                    found += 1
+                hit = False
+                for n in (1, NB):
+                    r = check_one(mk, field, p, singular, n)
+                    if r is not None:
+                        found += 1
+                        hit = True
+                        failed.add((cls, coarse(tags)))
+                        report(cls, label, mk, field, tags, p, singular, shrinkable, r[0], r[1], n)
+                        break
+                if not hit:
+                    gp = groups[coarse(tags)]
+                    tile = ([q for _, q in gp] * (NB // len(gp) + 1))[:max(NB, len(gp))]
+                    s3, v3 = guarded_confirm(lambda t=tile: (mk().getB if field == "B" else mk().getH)(np.array(t)), 2.0, 8.0)
+                    badt = s3 != "ok" or not np.all(np.isfinite(np.asarray(v3)))
                     failed.add((cls, coarse(tags)))
-                    ess, q = shrink_point(ctx, cls, label, mk, field, tags, p, singular, clause)
-                    r2 = check_one(ctx, cls, label, mk, field, tags, q, singular, confirm=4.0)
-                    if r2 is not None and r2[0] == clause:
-                        p, what = q, r2[1]
-                    sig = f"{clause}/{cls}:{region(cls, label, ess)}"
-                    ctx.impl_fail(sig, f"{cls}({label}).get{field}({tuple(float(x) for x in p)!r}) {what}",
-                                  {"kind": "point", "class": cls, "label": label, "field": field,
-                                   "point": [float.hex(float(x)) for x in p], "tags": list(tags)})
+                    found += 1
+                    ess_b = sorted(t for t in (norm_tag(t) for t in tags) if t)
+                    clause = "terminates" if s3 == "hang" else f"returns[{type(v3).__name__}]" if s3 == "raise" else "finite"
+                    ctx.impl_fail(signature(clause, cls, label, ess_b, shrinkable, 0, tags) + ":mixed-batch",
+                                  f"{cls}({label}).get{field} fails on a batch of different observers of this special set "
+                                  f"({'reproduced on the set alone' if badt else 'only inside the full battery'}), "
+                                  f"each observer alone and repeated {NB} times is fine; first observer {tuple(p)!r}",
+                                  {"kind": "batch", "class": cls, "label": label, "field": field,
+                                   "points": [[float.hex(float(x)) for x in q] for q in tile[:64]]})
+            # 3. the scalar paths (cel0 / cel_iter0 below 10 / 15 rows): one observer per call per special set
+            keys = sorted(groups)
+            cap = SINGLES.get(cls, 40) * (1 if ctx.tier == "quick" else 6) * (3 if big else 1)
+            stride = max(1, -(-len(keys) // cap))
+            for g in keys[::stride]:
+                tags, p = groups[g][0]
+                if (cls, g) in failed:
+                    continue
+                ctx.case(("search", cls, label, field, tuple(p)), True)
+                r = check_one(mk, field, p, singular, 1)
+                if r is not None:
+                    found += 1
+                    failed.add((cls, g))
+                    report(cls, label, mk, field, tags, p, singular, shrinkable, r[0], r[1], 1)
     return found
 
 
@@ -811,7 +809,7 @@ def build_source(cls, label):
         @staticmethod
         def n(a, b):
             return a
-    for c, l, mk, _, singular in geometries(_C):
+    for c, l, mk, _, singular, _s in geometries(_C):
         if c == cls and l == label:
             return mk, singular
     return None, None
@@ -819,14 +817,21 @@ def build_source(cls, label):
 
 def replay(ctx, obj):
     rp = obj.get("replay", obj)
-    if rp.get("kind") == "point":
+    if rp.get("kind") in ("point", "batch"):
         mk, singular = build_source(rp["class"], rp["label"])
         if mk is None:
             print("replay: source description not found:", rp["class"], rp["label"])
             return 2
-        p = [float.fromhex(x) for x in rp["point"]]
-        r = check_one(ctx, rp["class"], rp["label"], mk, rp["field"], tuple(rp["tags"]), p, singular)
-        print("replay:", "property holds on this input" if r is None else f"FAILS: {rp['class']}.get{rp['field']}({p}) {r[1]}")
+        if rp["kind"] == "point":
+            p = [float.fromhex(x) for x in rp["point"]]
+            r = check_one(mk, rp["field"], p, singular, int(rp.get("n", 1)))
+            desc = f"{rp['class']}.get{rp['field']}({p}" + (f" x {rp['n']}" if rp.get("n", 1) > 1 else "") + ")"
+        else:
+            pts = [[float.fromhex(x) for x in q] for q in rp["points"]]
+            st, v = guarded_confirm(lambda: (mk().getB if rp["field"] == "B" else mk().getH)(np.array(pts)), 2.0, 8.0)
+            r = None if (st == "ok" and np.all(np.isfinite(np.asarray(v)))) else ("batch", f"{st}")
+            desc = f"{rp['class']}.get{rp['field']}(<{len(pts)} observers>)"
+        print("replay:", "property holds on this input" if r is None else f"FAILS: {desc} {r[1]}")
         if r is not None:
             print(f"VIOLATION property=C15 replay={obj.get('how_to_rerun', '').split()[-1] or 'given'}")
         return 0 if r is None else 1
